@@ -641,7 +641,9 @@ func runC11(c *mon.Ctx) {
 				}
 				depBase, err := gmsl.ResolveConflicts(ver, flat, authList, userIDForSender, noRej)
 				if err == nil {
-					checkWellFormed(c, "ResolveConflicts", ver, depBase, nil, supplied)
+					// (the deprecated entry point is given the state sets as one list; a key on which all sets agree is
+					// one of its unconflicted keys, and the result keeps that event - ninth seeding round, C11-R)
+					checkWellFormed(c, "ResolveConflicts", ver, depBase, sc.stateSets, supplied)
 					for i := 0; i < 6; i++ {
 						f2, a2 := shufflePDUs(pr, flat), authList
 						if i%2 == 1 {
